@@ -521,6 +521,27 @@ def unit_idxs(ctx):
                           broken="correspondence contrastive-idxs / theorem C17_contrastive_indices", reproducer="cd /verif && ./check C17 --replay <this file>")
 
 
+def unit_idxs_large(ctx):
+    """The index clauses (each row: n_contrastive DISTINCT OTHER rows of the batch) for batch sizes far above the small exhaustive grid:
+    B in {33, 64, 129, 160, 257, 1000}, n in {1, 5, B // 2, B - 1}.  Implementation only (the model tie is the small grid).
+    (Seeded change C17g took a cheaper, off-by-one path for batches above 128 rows.)"""
+    s = _jx()
+    jr = s["jr"]
+    r = ctx.rng
+    u = ctx.unit("contrastive-idxs-large", "_get_contrastive_idxs(key, B, n) for B up to 1000: every row holds n distinct other rows of the batch (oracle only)")
+    Bs = [33, 129, 160, 257] if ctx.quick else [33, 64, 129, 160, 257, 1000]
+    for B in Bs:
+        for n in sorted({1, 5, B // 2, B - 1}):
+            keyint = int(r.integers(0, 2 ** 31 - 1))
+            idx = np.asarray(s["L"]._get_contrastive_idxs(jr.PRNGKey(keyint), B, n))
+            cj = dict(unit="contrastive-idxs-large", key=keyint, batch_size=B, n_contrastive=n)
+            u.count(cj, nontrivial=True, tag=f"B={B}")
+            errs = idx_clauses(idx, B, n)
+            if errs:
+                ctx.violation(sig=f"_get_contrastive_idxs:large:{errs[0].split(':')[0]}", what=f"_get_contrastive_idxs(PRNGKey({keyint}), {B}, {n}): " + "; ".join(e[:120] for e in errs[:3]) + f" ({len(errs)} rows in all)",
+                              case=cj, found_input=True, unit=u.name, expected="n distinct other rows in every row", observed=errs[0][:200], broken="index clauses of the property (large batches)")
+
+
 def _contr_obs(name, seed, sd, B, n, keyint, x, c, prior_scale):
     s = _jx()
     jnp, jr, eqx = s["jnp"], s["jr"], s["eqx"]
@@ -735,7 +756,7 @@ def run(ctx):
     import time
     _jx()
     only = os.environ.get("VERIF_C17_UNITS")   # development aid: run a subset of the units (default: all)
-    for f in (unit_logsumexp, unit_idxs, unit_ml, unit_contrastive, unit_contrastive_bounded_support, unit_ml_multiaxis, unit_elbo):
+    for f in (unit_logsumexp, unit_idxs, unit_idxs_large, unit_ml, unit_contrastive, unit_contrastive_bounded_support, unit_ml_multiaxis, unit_elbo):
         if only and f.__name__[5:] not in only.split(","):
             continue
         t0 = time.time()
@@ -756,6 +777,12 @@ def replay(ctx, rep):
     c = rep["case"]
     unit = c.get("unit")
     _jx()
+    if unit == "contrastive-idxs-large":
+        s_ = _jx()
+        idx = np.asarray(s_["L"]._get_contrastive_idxs(s_["jr"].PRNGKey(c["key"]), c["batch_size"], c["n_contrastive"]))
+        errs = idx_clauses(idx, c["batch_size"], c["n_contrastive"])
+        print("index clauses:", errs[:3] or "hold")
+        return not errs
     if unit == "ml-loss":
         x, cond = np.asarray(c["x"], float), (None if c["condition"] is None else np.asarray(c["condition"], float))
         v, v2, lps = _ml_obs(c["dist"], c["seed"], c["sd"], x, cond)
